@@ -64,7 +64,12 @@ Record obs := mkObs {
   ob_to_run : bool;                (* title in data.regal.main._rules_to_run[cat]                         *)
   ob_reported : option str;        (* level of the rule's violation in data.regal.main.report, if any     *)
   ob_aggregated : bool;            (* "cat/title" is a key of data.regal.main.aggregate                   *)
-  ob_agg_reported : option str }.  (* level of the rule's violation in data.regal.main.aggregate_report   *)
+  ob_agg_reported : option str;    (* level of the rule's violation in data.regal.main.aggregate_report,
+                                      fed with the aggregates data.regal.main.aggregate gave in the same
+                                      configuration (one run)                                             *)
+  ob_agg_reported_foreign : option str }.
+                                   (* the same, fed with aggregates collected in ANOTHER run, in which the
+                                      rule was enabled (Linter.WithAggregates)                            *)
 
 Record ecase := mkCase {
   ec_provided : rules_map;
@@ -73,7 +78,10 @@ Record ecase := mkCase {
   ec_params : params;
   ec_cat : str;  ec_title : str;
   ec_is_custom : bool;             (* the rule under observation is the custom rule                       *)
-  ec_triggered : bool;             (* the linted policy makes the rule's body report                      *)
+  ec_triggered : bool;             (* the linted policy makes the rule's bodies report / aggregate        *)
+  ec_has_report : bool;            (* the rule defines `report`                                           *)
+  ec_has_agg : bool;               (* the rule defines `aggregate` and `aggregate_report`; the latter
+                                      reports iff aggregates of the rule are supplied                     *)
   ec_obs : obs }.
 
 Definition merged_of (c : ecase) : rules_map := linter_config (ec_provided c) (ec_user c) (ec_custom c).
@@ -83,15 +91,24 @@ Definition model_obs (c : ecase) : obs :=
   let p := ec_params c in let m := merged_of c in
   let cat := ec_cat c in let title := ec_title c in
   let e := entry_of m cat title in
-  let can := if ec_is_custom c then custom_can_report p m cat title false
-             else builtin_can_report p m cat title false false in
-  let rep := if can then Some (violation_level p m cat title) else None in
+  let lvl := violation_level p m cat title in
+  (* no file is excluded and no rule has a notice in these runs *)
+  let gate b supplied := branch_gate (ec_is_custom c) b p m cat title false false supplied in
+  let rep := if ec_has_report c && gate BReport true then Some lvl else None in
+  let aggregated := ec_has_agg c && gate BAggregate true in
+  let agg_rep supplied :=
+      if ec_has_agg c && supplied && gate BAggregateReport supplied then Some lvl else None in
   mkObs (rule_level_of m cat title)
         (ignored_rule p e cat title) (force_disabled p cat title) (force_enabled p cat title)
         (level_for_rule p e cat title) (rules_to_run_has p m cat title false)
-        rep (ec_is_custom c && can) (if ec_is_custom c then rep else None).
+        rep aggregated (agg_rep aggregated) (agg_rep true).
 
 Definition model_reported (c : ecase) : option str := ob_reported (model_obs c).
+
+(* is the rule on at all, according to the model (any entry point, aggregates supplied) *)
+Definition model_level_if_on (c : ecase) : option str :=
+  let mo := model_obs c in
+  match ob_reported mo with Some l => Some l | None => ob_agg_reported_foreign mo end.
 
 Definition go_agrees_with (mo : obs) (c : ecase) : bool :=
   opt_str_eqb (ob_go_entry (ec_obs c)) (ob_go_entry mo).
@@ -105,9 +122,9 @@ Definition main_agrees_with (mo : obs) (c : ecase) : bool :=
   let o := ec_obs c in
   negb (ec_triggered c) ||
   (opt_str_eqb (ob_reported o) (ob_reported mo)
-   && (if ec_is_custom c
-       then Bool.eqb (ob_aggregated o) (ob_aggregated mo) && opt_str_eqb (ob_agg_reported o) (ob_agg_reported mo)
-       else true)).
+   && Bool.eqb (ob_aggregated o) (ob_aggregated mo)
+   && opt_str_eqb (ob_agg_reported o) (ob_agg_reported mo)
+   && opt_str_eqb (ob_agg_reported_foreign o) (ob_agg_reported_foreign mo)).
 
 Definition go_agrees (c : ecase) : bool := go_agrees_with (model_obs c) c.
 Definition rego_agrees (c : ecase) : bool := rego_agrees_with (model_obs c) c.
@@ -126,38 +143,42 @@ Definition spec_default (c : ecase) : option str :=
     end
   else rule_level_of (ec_provided c) (ec_cat c) (ec_title c).
 
-Definition observed_decision (c : ecase) : decision :=
-  match ob_reported (ec_obs c) with Some l => On l | None => Off end.
+Definition decision_of_obs (o : option str) : decision :=
+  match o with Some l => On l | None => Off end.
 
+Definition observed_decision (c : ecase) : decision := decision_of_obs (ob_reported (ec_obs c)).
+
+Definition is_on (d : decision) : bool := match d with On _ => true | Off => false end.
+
+(* every entry point the rule has must tell the story the README tells: `report`; `aggregate`
+   (collects iff the rule is on); `aggregate_report` on the aggregates of the same run and on aggregates
+   collected in another run in which the rule was on *)
 Definition case_meets_spec (c : ecase) : bool :=
   negb (ec_triggered c) ||
   match spec_default c with
   | None => true
   | Some d =>
-      decision_eqb (observed_decision c)
-                   (spec_decision (ec_params c) (ec_cat c) (ec_title c)
-                                  (spec_user_level (ec_user c) (ec_cat c) (ec_title c) d))
+      let dec := spec_decision (ec_params c) (ec_cat c) (ec_title c)
+                               (spec_user_level (ec_user c) (ec_cat c) (ec_title c) d) in
+      let o := ec_obs c in
+      (negb (ec_has_report c) || decision_eqb (decision_of_obs (ob_reported o)) dec)
+      && (negb (ec_has_agg c)
+          || (Bool.eqb (ob_aggregated o) (is_on dec)
+              && decision_eqb (decision_of_obs (ob_agg_reported o)) dec
+              && decision_eqb (decision_of_obs (ob_agg_reported_foreign o)) dec))
   end.
 
 Definition case_in_spec_domain (c : ecase) : bool :=
   ec_triggered c && match spec_default c with Some _ => true | None => false end.
 
 (* ---------------------------------------------------------------------------------------------- *)
-(* packed exhaustive cases: one number per case, mixed radix, least significant digit first       *)
-Fixpoint digits (radices : list N) (n : N) : list N :=
-  match radices with
-  | [] => []
-  | r :: rs => (n mod r) :: digits rs (n / r)
-  end.
-
-Definition fn_radices : list N :=
-  [2; 5; 5; 5; 4; 2; 64; 2;            (* k p u c g nu flags decoy *)
-   6; 2; 2; 2; 6; 2; 6; 2; 6].         (* go ign fd fe level to_run reported aggregated agg_reported *)
-
+(* names of the exhaustive function-level enumeration                                             *)
 Definition B_CAT : str := [98;117;103;115].                                                   (* bugs *)
 Definition B_TITLE : str := [99;111;110;115;116;97;110;116;45;99;111;110;100;105;116;105;111;110]. (* constant-condition *)
 Definition C_CAT : str := [110;97;109;105;110;103].                                           (* naming *)
 Definition C_TITLE : str := [109;121;45;114;117;108;101].                                     (* my-rule *)
+Definition A_CAT : str := [105;109;112;111;114;116;115].                                      (* imports *)
+Definition A_TITLE : str := [117;110;114;101;115;111;108;118;101;100;45;105;109;112;111;114;116]. (* unresolved-import *)
 Definition DECOY_RULE : str := [116;111;100;111;45;99;111;109;109;101;110;116].               (* todo-comment *)
 Definition DECOY_CAT : str := [116;101;115;116;105;110;103].                                  (* testing *)
 Definition s_other : str := [63].                                                             (* any other string *)
@@ -194,39 +215,23 @@ Definition user_of_codes (cat title : str) (u c g : N) : config :=
            (match c with 0 => [] | _ => [(cat, opt_level c)] end)
            (match g with 0 => [] | _ => opt_level (g + 1) end).
 
-Definition provided_of_code (p : N) : rules_map :=
+Definition provided_of_code (cat title : str) (p : N) : rules_map :=
   match p with
   | 0 => []
-  | _ => [(B_CAT, [(B_TITLE, opt_level p)])]
+  | _ => [(cat, [(title, opt_level p)])]
   end.
 
 Definition nz (n : N) : bool := negb (N.eqb n 0).
-
-Definition decode_fn (n : N) : option ecase :=
-  match digits fn_radices n with
-  | [k; p; u; c; g; nu; f; d; go; ign; fd; fe; lvl; torun; rep; agg; aggrep] =>
-      let custom := nz k in
-      let cat := if custom then C_CAT else B_CAT in
-      let title := if custom then C_TITLE else B_TITLE in
-      Some (mkCase (provided_of_code (if custom then 4 else p))
-                   (if nz nu then None else Some (user_of_codes cat title u c g))
-                   [(C_CAT, C_TITLE)]
-                   (params_of_flags cat title f (nz d))
-                   cat title custom true
-                   (mkObs (level_of_code go) (nz ign) (nz fd) (nz fe) (opt_level lvl) (nz torun)
-                          (level_of_code rep) (nz agg) (level_of_code aggrep)))
-  | _ => None
-  end.
-
-Definition fn_ok (check : ecase -> bool) (n : N) : bool :=
-  match decode_fn n with Some c => check c | None => false end.
 
 (* ---------------------------------------------------------------------------------------------- *)
 (* full Lint / DetermineEnabledRules                                                              *)
 Record lcase := mkLCase {
   lc_case : ecase;
   lc_full : bool;                        (* regal's real provided configuration (Gen.RulesTable)      *)
-  lc_files : nat;
+  lc_files : nat;                        (* files linted in this run (0: only supplied aggregates)    *)
+  lc_foreign : nat;                      (* 0: one run.  n > 0: aggregates exported by an EARLIER run over n
+                                            files, in which every rule was enabled, are supplied to this run
+                                            (Linter.WithAggregates)                                      *)
   lc_validation_error : bool;            (* Lint refused the configuration (unknown rule / category)  *)
   lc_violations : list (str * bool);     (* violations of the rule under observation: (level, is aggregate) *)
   lc_enabled : list str;                 (* DetermineEnabledRules                                     *)
@@ -242,7 +247,7 @@ Definition lcase_full_ok (l : lcase) : ecase :=
   let c := lc_case l in
   if lc_full l
   then mkCase provided_rules (ec_user c) (ec_custom c) (ec_params c) (ec_cat c) (ec_title c)
-              (ec_is_custom c) (ec_triggered c) (ec_obs c)
+              (ec_is_custom c) (ec_triggered c) (ec_has_report c) (ec_has_agg c) (ec_obs c)
   else c.
 
 Fixpoint count_viol (lvl : str) (agg : bool) (l : list (str * bool)) : nat :=
@@ -251,20 +256,36 @@ Fixpoint count_viol (lvl : str) (agg : bool) (l : list (str * bool)) : nat :=
   | (l0, a) :: l' => (if str_eqb l0 lvl && Bool.eqb a agg then 1 else 0)%nat + count_viol lvl agg l'
   end.
 
-(* n files, each triggering the rule: n violations; the custom rule's aggregate_report adds one
-   when more than one file is linted (the aggregate phase only runs then) *)
+(* How many violations of the rule under observation a run gives when the rule is on.  `report`: one
+   per linted file.  The aggregate report runs when more than one file is linted or aggregates are
+   supplied (which then REPLACE those of the run itself); the custom rule's aggregate_report gives one
+   violation, the bundled one (imports/unresolved-import) one per file the aggregates stem from. *)
+Definition expected_file_violations (l : lcase) : nat :=
+  if ec_has_report (lc_case l) then lc_files l else 0%nat.
+
+Definition expected_agg_violations (l : lcase) : nat :=
+  let c := lc_case l in
+  let phase_runs := Nat.ltb 0 (lc_foreign l) || Nat.ltb 1 (lc_files l) in
+  if ec_has_agg c && phase_runs
+  then (if ec_is_custom c then 1 else if Nat.ltb 0 (lc_foreign l) then lc_foreign l else lc_files l)%nat
+  else 0%nat.
+
+Definition no_violations (l : lcase) : bool := match lc_violations l with [] => true | _ => false end.
+
 Definition lint_agrees (l : lcase) : bool :=
   let c := lcase_full_ok l in
   lc_validation_error l || negb (ec_triggered c) ||
-  match model_reported c with
-  | None => match lc_violations l with [] => true | _ => false end
+  match model_level_if_on c with
+  | None => no_violations l
   | Some lvl =>
-      let nagg := if ec_is_custom c && Nat.ltb 1 (lc_files l) then 1%nat else 0%nat in
-      Nat.eqb (count_viol lvl false (lc_violations l)) (lc_files l)
-      && Nat.eqb (count_viol lvl true (lc_violations l)) nagg
-      && Nat.eqb (length (lc_violations l)) (lc_files l + nagg)
+      Nat.eqb (count_viol lvl false (lc_violations l)) (expected_file_violations l)
+      && Nat.eqb (count_viol lvl true (lc_violations l)) (expected_agg_violations l)
+      && Nat.eqb (length (lc_violations l)) (expected_file_violations l + expected_agg_violations l)
   end.
 
+(* the README decision on what Lint returned: an Off rule contributes nothing, whatever aggregates were
+   supplied; an On rule reports (when the run gives its bodies anything to report on), always at the
+   decided level *)
 Definition lint_meets_spec (l : lcase) : bool :=
   let c := lcase_full_ok l in
   lc_validation_error l || negb (ec_triggered c) ||
@@ -274,8 +295,9 @@ Definition lint_meets_spec (l : lcase) : bool :=
       let dec := spec_decision (ec_params c) (ec_cat c) (ec_title c)
                                (spec_user_level (ec_user c) (ec_cat c) (ec_title c) d) in
       match dec with
-      | Off => match lc_violations l with [] => true | _ => false end
-      | On lvl => negb (match lc_violations l with [] => true | _ => false end)
+      | Off => no_violations l
+      | On lvl => Bool.eqb (no_violations l)
+                           (Nat.eqb (expected_file_violations l + expected_agg_violations l) 0)
                   && forallb (fun va => str_eqb (fst va) lvl) (lc_violations l)
       end
   end.
@@ -303,6 +325,15 @@ Definition enabled_is_runnable (l : lcase) : bool :=
                                        && negb (pair_in (fst ct) (snd ct) (lc_noticed l))) (lc_to_run l))
             ++ lc_custom_reporting l).
 
+(* the same for the aggregate rules: with aggregates of every rule supplied, the rule under observation
+   is in DetermineEnabledAggregateRules exactly when its aggregate_report contributed a violation *)
+Definition enabled_agg_is_reporting (l : lcase) : bool :=
+  let c := lc_case l in
+  negb (lc_check_agg l) || lc_validation_error l || negb (ec_triggered c) || negb (ec_has_agg c)
+  || Nat.eqb (lc_foreign l) 0
+  || Bool.eqb (str_in (ec_title c) (lc_enabled_agg l))
+              (existsb (fun va => snd va) (lc_violations l)).
+
 Definition lcase_agrees (l : lcase) : bool :=
   case_agrees (lcase_full_ok l) && lint_agrees l && enabled_agrees l && enabled_agg_agrees l.
 
@@ -324,19 +355,20 @@ Definition code_of_level (o : option str) : N :=
 
 Definition bN (x : bool) : N := if x then 1 else 0.
 
-Definition chr (n : N) : ascii := ascii_of_N (48 + n).
-
+(* k: 0 the bundled rule bugs/constant-condition (`report` only), 1 the custom rule naming/my-rule
+   (`report`, `aggregate`, `aggregate_report`), 2 the bundled aggregate rule imports/unresolved-import
+   (`aggregate`, `aggregate_report`) *)
 Definition fn_input_case (k p u c g nu f : N) : ecase :=
-  let custom := nz k in
-  let cat := if custom then C_CAT else B_CAT in
-  let title := if custom then C_TITLE else B_TITLE in
+  let custom := N.eqb k 1 in
+  let cat := match k with 0 => B_CAT | 1 => C_CAT | _ => A_CAT end in
+  let title := match k with 0 => B_TITLE | 1 => C_TITLE | _ => A_TITLE end in
   let decoy := N.odd (p + u + c + g + f) in
-  mkCase (provided_of_code (if custom then 4 else p))
+  mkCase (if custom then provided_of_code B_CAT B_TITLE 4 else provided_of_code cat title p)
          (if nz nu then None else Some (user_of_codes cat title u c g))
          [(C_CAT, C_TITLE)]
          (params_of_flags cat title f decoy)
-         cat title custom true
-         (mkObs None false false false [] false None false None).
+         cat title custom true (negb (N.eqb k 2)) (nz k)
+         (mkObs None false false false [] false None false None None).
 
 Definition spec_code (c : ecase) : N :=
   match spec_default c with
@@ -349,25 +381,28 @@ Definition spec_code (c : ecase) : N :=
       end
   end.
 
-Definition fn_entry (c : ecase) : string :=
+(* five codes per case, each below 64: what the model says was observed (1, 2, 3, 5) and the README
+   decision (4) *)
+Definition fn_entry (c : ecase) : list N :=
   let o := model_obs c in
-  String (chr (code_of_level (ob_go_entry o) + 6 * bN (ob_ignored o) + 12 * bN (ob_fd o) + 24 * bN (ob_fe o)))
-  (String (chr (code_of_level (Some (ob_level o)) + 6 * bN (ob_to_run o) + 12 * bN (ob_aggregated o)))
-  (String (chr (code_of_level (ob_reported o) + 6 * code_of_level (ob_agg_reported o)))
-  (String (chr (spec_code c)) EmptyString))).
+  [code_of_level (ob_go_entry o) + 6 * bN (ob_ignored o) + 12 * bN (ob_fd o) + 24 * bN (ob_fe o);
+   code_of_level (Some (ob_level o)) + 6 * bN (ob_to_run o) + 12 * bN (ob_aggregated o);
+   code_of_level (ob_reported o) + 6 * code_of_level (ob_agg_reported o);
+   spec_code c;
+   code_of_level (ob_agg_reported_foreign o)].
 
 Definition range (n : nat) : list N := map N.of_nat (seq 0 n).
 
-(* one chunk per (k, p, u) and one per (k, p) without user configuration, so that no single string
-   constant gets too deep for the checker's stack *)
-Definition fn_inputs_chunk (k p u : N) : list ecase :=
-  flat_map (fun c => flat_map (fun g => map (fun f => fn_input_case k p u c g 0 f) (range 64)) (range 4))
-           (range 5).
+(* the table is kept as numbers (printing a long string constant costs Coq ~40 us per character, a number
+   next to nothing): one number per row of 64 cases (the 64 command line codes f), base 64 digits, most
+   significant first, behind a leading 1 *)
+Definition pack_row (l : list ecase) : N :=
+  fold_left (fun acc c => fold_left (fun a d => a * 64 + d) (fn_entry c) acc) l 1.
 
-Definition fn_inputs_nouser (k p : N) : list ecase := map (fun f => fn_input_case k p 0 0 0 1 f) (range 64).
+Definition fn_row (k p u c g nu : N) : N := pack_row (map (fun f => fn_input_case k p u c g nu f) (range 64)).
 
-Fixpoint concat_strings (l : list string) : string :=
-  match l with [] => EmptyString | s :: l' => append s (concat_strings l') end.
+(* one chunk per (k, p, u): rows (c, g) in order; and one row per (k, p) without user configuration *)
+Definition fn_table_chunk (k p u : N) : list N :=
+  flat_map (fun c => map (fun g => fn_row k p u c g 0) (range 4)) (range 5).
 
-Definition fn_table_chunk (k p u : N) : string := concat_strings (map fn_entry (fn_inputs_chunk k p u)).
-Definition fn_table_nouser (k p : N) : string := concat_strings (map fn_entry (fn_inputs_nouser k p)).
+Definition fn_table_nouser (k p : N) : list N := [fn_row k p 0 0 0 1].
